@@ -5,7 +5,9 @@ faithful if the real code makes the value visible to other threads when it is co
 stores the object into the shared container is not followed, in its block, by statements that still mutate the
 stored object.  For every cell this group records whether that holds; `Props/C16.lean` proves by `decide` that it
 holds for all of them, so an edit that publishes the object first and fills it afterwards breaks a named obligation.
-A second list (`importCells`) records the one first-use cell whose object the import machinery makes (see below).
+A second list (`importCells`) records the one first-use cell whose object the import machinery makes (see below), a
+third (`lruEntryCells`) that an entry of the bounded collection (`LRUCache.__setitem__`), which `get_template` reads
+without the mutex, is inserted together with its value.
 
 Cells (file, function, shared container):
   mako/util.py      memoized_property.__get__   obj.__dict__[name]      (Template.cache, Template.reserved_names)
@@ -159,6 +161,73 @@ def imports_through_lock(module_tree, fn, what, attr="module"):
     return all(good_value(v) for v in stores)
 
 
+def lru_entry_published_with_value(lru, rel):
+    """`LRUCache.__setitem__`: True iff every object the method INSERTS into the underlying dict
+    (`dict.__setitem__(self, k, X)`, `dict.setdefault(self, k, X)`, `super().__setitem__(k, X)`) is an
+    `_Item(<key>, <the method's value argument>)` – the item carries its value when it becomes visible to the
+    lock-free readers of `get_template` – and `_Item.__init__` stores that argument into `self.value`.
+    (An existing item whose `.value` is replaced is already published with a complete value.)"""
+    fn = find_func(lru.body, "__setitem__", rel)
+    params = [a.arg for a in fn.args.args]
+    if len(params) < 3:
+        raise RegenError("%s: LRUCache.__setitem__ has no (self, key, value) parameters" % rel)
+    value_param = params[2]
+    item_cls = None
+    for node in lru.body:
+        if isinstance(node, ast.ClassDef) and node.name == "_Item":
+            item_cls = node
+    if item_cls is None:
+        raise RegenError("%s: LRUCache._Item not found" % rel)
+    init = find_func(item_cls.body, "__init__", rel)
+    iparams = [a.arg for a in init.args.args]
+    init_ok = len(iparams) >= 3 and any(
+        isinstance(n, ast.Assign) and any(isinstance(t, ast.Attribute) and t.attr == "value"
+                                          and isinstance(t.value, ast.Name) and t.value.id == iparams[0]
+                                          for t in n.targets)
+        and isinstance(n.value, ast.Name) and n.value.id == iparams[2]
+        for n in ast.walk(init))
+
+    def is_item_call(v):
+        return (isinstance(v, ast.Call) and isinstance(v.func, ast.Attribute) and v.func.attr == "_Item"
+                and len(v.args) >= 2 and isinstance(v.args[1], ast.Name) and v.args[1].id == value_param)
+
+    def is_existing(v):
+        # `dict.get(self, key)` / `dict.__getitem__(self, key)`: an entry that is already in the dict
+        return (isinstance(v, ast.Call) and isinstance(v.func, ast.Attribute) and v.func.attr in ("get", "__getitem__")
+                and isinstance(v.func.value, ast.Name) and v.func.value.id == "dict" and len(v.args) <= 2)
+    assigns = {}
+    for n in ast.walk(fn):
+        if isinstance(n, ast.Assign):
+            for t in n.targets:
+                if isinstance(t, ast.Name):
+                    assigns.setdefault(t.id, []).append(n.value)
+    stored = []
+    for n in ast.walk(fn):
+        if isinstance(n, ast.Call) and isinstance(n.func, ast.Attribute) and n.func.attr in ("__setitem__", "setdefault"):
+            base = n.func.value
+            if isinstance(base, ast.Name) and base.id == "dict" and len(n.args) >= 3:
+                stored.append(n.args[2])
+            elif isinstance(base, ast.Call) and isinstance(base.func, ast.Name) and base.func.id == "super" \
+                    and len(n.args) >= 2:
+                stored.append(n.args[1])
+        if isinstance(n, ast.Call) and isinstance(n.func, ast.Attribute) and n.func.attr == "update" \
+                and isinstance(n.func.value, ast.Name) and n.func.value.id == "dict":
+            stored.append(None)            # an insertion whose objects the translator cannot see
+    if not stored:
+        raise RegenError("%s: LRUCache.__setitem__ no longer inserts into the dict" % rel)
+
+    def complete(v):
+        if v is None:
+            return False
+        if is_item_call(v):
+            return True
+        if isinstance(v, ast.Name):
+            vals = assigns.get(v.id, [])
+            return bool(vals) and all(is_item_call(x) or is_existing(x) for x in vals) and any(is_item_call(x) for x in vals)
+        return False
+    return init_ok and all(complete(v) for v in stored)
+
+
 def stored_complete(fn, container, what):
     """True iff no statement after a publishing statement (in the same block, or in an enclosing block after it)
     mutates the published object.  Raises when the function publishes nothing into `container`."""
@@ -229,6 +298,9 @@ def gen(repo) -> str:
     cells.append(("template.ModuleInfo.__init__ self._modules[...]",
                   stored_complete(find_func(mi.body, "__init__", "mako/template.py"), "_modules",
                                   "ModuleInfo.__init__")))
+    lru = find_class(tu, "LRUCache", "mako/util.py")
+    lru_cells = [("util.LRUCache.__setitem__ inserts only _Item(key, value) objects built from its own value argument",
+                  lru_entry_published_with_value(lru, "mako/util.py"))]
     tr = parse(repo, "mako/runtime.py")
     mn = find_class(tr, "ModuleNamespace", "mako/runtime.py")
     import_cells = [("runtime.ModuleNamespace.__init__ self.module comes from __import__/import_module calls only, no sys.modules",
@@ -243,8 +315,15 @@ def gen(repo) -> str:
              "  [ " + "\n  , ".join("(%s, %s)" % (lean_string(n), "true" if ok else "false") for n, ok in cells),
              "  ]",
              "",
-             "/-- first-use cells whose object is made by the import machinery: whether the function obtains the module it",
-             "    keeps only from `__import__` / `import_module` calls (per-module import lock) and never reads `sys.modules` -/",
+             "/-- `importCells` (below): first-use cells whose object is made by the import machinery – whether the function",
+             "    obtains the module it keeps only from `__import__` / `import_module` calls (per-module import lock) and never",
+             "    reads `sys.modules`.  `lruEntryCells`: the entries of the bounded collection, which `get_template` reads without",
+             "    the mutex – whether `LRUCache.__setitem__` inserts only `_Item(key, value)` objects that carry the value -/",
+             "def lruEntryCells : List (String × Bool) :=",
+             "  [ " + "\n  , ".join("(%s, %s)" % (lean_string(n), "true" if ok else "false") for n, ok in lru_cells),
+             "  ]",
+             "",
+             "/-- (see the comment above `lruEntryCells`) -/",
              "def importCells : List (String × Bool) :=",
              "  [ " + "\n  , ".join("(%s, %s)" % (lean_string(n), "true" if ok else "false") for n, ok in import_cells),
              "  ]",
